@@ -46,8 +46,9 @@ Lemma DL_step lit com rout s r :
   if s =? 0 then Ok rout
   else if s =? 34 then DL (negb lit) com (s :: rout) O r
   else if lmem [s] tk_NUMBER || lmem [s] tk_LINE_NUMBER then
-    let trail := firstn (plus_bytes s) r in
-    bind (detok_number fl_str s trail) (fun t => DL lit com (rev t ++ rout) (length trail) r)
+    let raw := firstn (plus_bytes s) r in
+    bind (detok_number fl_str s (pad_trail (plus_bytes s) raw))
+         (fun t => DL lit com (rev t ++ rout) (length raw) r)
   else if com || lit || ((32 <=? s) && (s <=? 126)) then DL lit com (s :: rout) O r
   else if s =? 10 then DL lit com (13 :: 10 :: rout) O r
   else if s <=? 9 then DL lit com (s :: rout) O r
@@ -128,12 +129,17 @@ Proof.
 Qed.
 
 (* ---- number tokens ---- *)
+Lemma pad_full n raw : length raw = n -> pad_trail n raw = raw.
+Proof. intro H. unfold pad_trail. rewrite H, Nat.sub_diag. apply app_nil_r. Qed.
+
+(* a number token whose trail is complete *)
 Lemma DL_number lit com rout s r :
   lmem [s] tk_NUMBER || lmem [s] tk_LINE_NUMBER = true -> (s =? 0) = false -> (s =? 34) = false ->
+  length (firstn (plus_bytes s) r) = plus_bytes s ->
   DL lit com rout O (s :: r) =
   bind (detok_number fl_str s (firstn (plus_bytes s) r))
        (fun t => DL lit com (rev t ++ rout) (length (firstn (plus_bytes s) r)) r).
-Proof. intros H H0 H34. rewrite DL_step, H0, H34, H. reflexivity. Qed.
+Proof. intros H H0 H34 Hl. rewrite DL_step, H0, H34, H. cbv zeta. rewrite pad_full by exact Hl. reflexivity. Qed.
 
 Lemma le16_u16 v : 0 <= v < 65536 -> u16 (le16 v) = v.
 Proof.
@@ -154,7 +160,7 @@ Proof. intro H. reflexivity. Qed.
 Lemma DL_int16 v rout rest : 256 <= v < 32768 ->
   DL false false rout O ((tk_T_INT ++ le16 v) ++ rest) = DL false false (rev (dec_str v) ++ rout) O rest.
 Proof.
-  intro H. cbn [tk_T_INT app le16]. rewrite DL_number; [|reflexivity|reflexivity|reflexivity].
+  intro H. cbn [tk_T_INT app le16]. rewrite DL_number; [|reflexivity|reflexivity|reflexivity|reflexivity].
   change (plus_bytes 28) with 2%nat. cbn [firstn length].
   unfold detok_number. cbn [tk_T_OCT tk_T_HEX tk_T_BYTE list_Z_eqb Z.eqb Pos.eqb andb].
   change (list_Z_eqb [28] [11]) with false. change (list_Z_eqb [28] [12]) with false.
@@ -185,7 +191,7 @@ Lemma DL_hex v rout rest : 0 <= v < 65536 ->
   DL false false rout O ((tk_T_HEX ++ le16 v) ++ rest) =
   DL false false (rev ([38; 72] ++ hex_str v) ++ rout) O rest.
 Proof.
-  intro H. cbn [tk_T_HEX app le16]. rewrite DL_number; [|reflexivity|reflexivity|reflexivity].
+  intro H. cbn [tk_T_HEX app le16]. rewrite DL_number; [|reflexivity|reflexivity|reflexivity|reflexivity].
   change (plus_bytes 12) with 2%nat. cbn [firstn length].
   unfold detok_number. change (list_Z_eqb [12] tk_T_OCT) with false. change (list_Z_eqb [12] tk_T_HEX) with true.
   cbv iota. cbn [length bind].
@@ -196,7 +202,7 @@ Lemma DL_oct v rout rest : 0 <= v < 65536 ->
   DL false false rout O ((tk_T_OCT ++ le16 v) ++ rest) =
   DL false false (rev ([38; 79] ++ oct_str v) ++ rout) O rest.
 Proof.
-  intro H. cbn [tk_T_OCT app le16]. rewrite DL_number; [|reflexivity|reflexivity|reflexivity].
+  intro H. cbn [tk_T_OCT app le16]. rewrite DL_number; [|reflexivity|reflexivity|reflexivity|reflexivity].
   change (plus_bytes 11) with 2%nat. cbn [firstn length].
   unfold detok_number. change (list_Z_eqb [11] tk_T_OCT) with true. cbv iota. cbn [length bind].
   change [v mod 256; v / 256] with (le16 v). rewrite le16_u16 by lia. cbn [detok_loop]. reflexivity.
@@ -205,7 +211,7 @@ Qed.
 Lemma DL_jump v rout rest : 0 <= v < 65536 ->
   DL false false rout O ((tk_T_UINT ++ le16 v) ++ rest) = DL false false (rev (dec_str v) ++ rout) O rest.
 Proof.
-  intro H. cbn [tk_T_UINT app le16]. rewrite DL_number; [|reflexivity|reflexivity|reflexivity].
+  intro H. cbn [tk_T_UINT app le16]. rewrite DL_number; [|reflexivity|reflexivity|reflexivity|reflexivity].
   change (plus_bytes 14) with 2%nat. cbn [firstn length].
   unfold detok_number. change (list_Z_eqb [14] tk_T_OCT) with false. change (list_Z_eqb [14] tk_T_HEX) with false.
   change (list_Z_eqb [14] tk_T_BYTE) with false. cbv iota.
@@ -224,14 +230,16 @@ Lemma DL_float lead trail txt rout rest :
 Proof.
   intros H Hs. apply orb_true_iff in H as [H|H]; apply andb_true_iff in H as [H1 H2];
     apply Z.eqb_eq in H1; apply Nat.eqb_eq in H2; subst lead.
-  - cbn [app]. rewrite DL_number; [|reflexivity|reflexivity|reflexivity].
+  - cbn [app]. rewrite DL_number; [|reflexivity|reflexivity|reflexivity|
+      change (plus_bytes 29) with 4%nat; rewrite <- H2, firstn_exact; reflexivity].
     change (plus_bytes 29) with 4%nat. rewrite <- H2. rewrite firstn_exact.
     unfold detok_number. change (list_Z_eqb [29] tk_T_OCT) with false. change (list_Z_eqb [29] tk_T_HEX) with false.
     change (list_Z_eqb [29] tk_T_BYTE) with false. cbv iota.
     change ((hd 0 tk_C_0 <=? 29) && (29 <=? hd 0 tk_C_10)) with false.
     change (lmem [29] tk_LINE_NUMBER) with false. cbv iota.
     unfold value_str. rewrite H2. rewrite Hs. cbn [bind]. rewrite <- H2. apply DL_skip.
-  - cbn [app]. rewrite DL_number; [|reflexivity|reflexivity|reflexivity].
+  - cbn [app]. rewrite DL_number; [|reflexivity|reflexivity|reflexivity|
+      change (plus_bytes 31) with 8%nat; rewrite <- H2, firstn_exact; reflexivity].
     change (plus_bytes 31) with 8%nat. rewrite <- H2. rewrite firstn_exact.
     unfold detok_number. change (list_Z_eqb [31] tk_T_OCT) with false. change (list_Z_eqb [31] tk_T_HEX) with false.
     change (list_Z_eqb [31] tk_T_BYTE) with false. cbv iota.
